@@ -30,9 +30,9 @@ MODELLED_NOT_VERIFIED = [
     "`entries fracLen taxonKey`, `meanPairwise`/`meanNearest`, `njTree`, `upgmaTree`, `treePatristic` at `Frac`; Tree.mrca needs no arithmetic. "
     "binary64 rounding in the library is not modelled "
     "(exact comparison on dyadic inputs; means, normalised values and NJ branch lengths within 1e-9)",
-    "C14: NJ consistency (a Q-minimal pair of an additive metric with positive internal edges is a cherry) is proved for <= 4 taxa only "
-    "(nj_four_cherry, nj_realises_four, nj_realises_three); nj_realises_of_cherry_picking_partial proves the induction over contractions with "
-    "that lemma as its hypothesis, and there is no uniqueness theorem for additive trees, so for n >= 5 the NJ half of clause (d) is tested: executed on implementation and model for generated additive inputs and "
+    "C14: NJ consistency (a Q-minimal pair of an additive metric with positive internal edges is a cherry) is proved for pools of <= 5 nodes only "
+    "(minQ_cherry_four, minQ_cherry_five; nj_realises_five, frac_nj_realises_five); nj_realises_of_quartet_lemma_partial reduces the general case to "
+    "the finite-metric statement MinQCherryAt N (missing for N >= 6), and there is no uniqueness theorem for additive trees, so for n >= 6 the NJ half of clause (d) is tested: executed on implementation and model for generated additive inputs and "
     "compared with the generating tree. The UPGMA half is proved (upgma_recovers_tree)",
     "C14: CSV formatting/parsing and NodeDistanceMatrix are judged by the oracle only (not modelled); treemeasure.patristic_distance is "
     "modelled (treePatristic, op `tm`) with every taxon on exactly one node (find_node is rendered as a search below the common ancestor)",
@@ -52,7 +52,12 @@ EXPLANATION = ("Theorems (Props/C14.lean), for every tree and every number type 
                "PARTIAL: nj_realises_of_cherry_picking_partial (NJ inverts the matrix IF every picked pair is a cherry: the induction over "
                "contractions) and nj_recovers_tree_partial (one step); the cherry-picking consistency lemma for additive metrics is NOT proved, so "
                "the NJ reconstruction clause is testing: implementation and model are executed on generated additive inputs and compared with the "
-               "generating tree. upgma_recovers_tree_partial is superseded by upgma_recovers_tree.")
+               "generating tree. upgma_recovers_tree_partial is superseded by upgma_recovers_tree. "
+               "Last round: MinQCherryAt N states the cherry-picking lemma about finite metrics; nj_realises_of_quartet_lemma_partial reduces NJ's correctness to it "
+               "(all NJ machinery discharged: nrel_quartet, qval_eq_Qfun, cherry_of_balanced); minQ_cherry_four / minQ_cherry_five prove it for pools of 4 and 5, hence "
+               "nj_realises_five / frac_nj_realises_five; tree_four_point (distances of a tree with positive internal edges satisfy the strict four-point condition) gives "
+               "nj_inverts_tree_five (NJ clause about trees, <= 5 taxa) and nj_inverts_tree_partial (any n, given MinQCherryAt for pools of 6..n). Missing: MinQCherryAt N for "
+               "N >= 6 and uniqueness of additive trees.")
 
 TOL = 1e-9
 
